@@ -473,7 +473,10 @@ func (sa *Application) timeoutPlaceholderProcessing() {
 					continue
 				}
 				pendingRelease = append(pendingRelease, alloc)
-				sa.placeholderData[alloc.taskGroupName].TimedOut++
+				// only asks of a tracked task group are counted: a real ask without (or with an unknown) task group has no entry
+				if phData, ok := sa.placeholderData[alloc.taskGroupName]; ok {
+					phData.TimedOut++
+				}
 			}
 		}
 		log.Log(log.SchedApplication).Info("Placeholder timeout, releasing allocated and pending placeholders",
